@@ -5,7 +5,8 @@
    parse_lines = parse_script after line splitting; llines = the logical lines (index of first physical line, text);
    pfold = the fold of pstep over them (Model/ScriptX.v, proved equal to ploop in Proofs/ScriptFacts.v). *)
 From BS Require Import Model.Base Model.Regex Model.ExprParser Model.Script Model.ScriptX Model.PErr
-  Proofs.ScriptFacts Proofs.PErrFacts Proofs.C06 Proofs.C06Cols Proofs.C06Progress Proofs.NumLit Proofs.Total.
+  Proofs.ScriptFacts Proofs.PErrFacts Proofs.C06 Proofs.C06Cols Proofs.C06Progress Proofs.NumLit Proofs.Total
+  Proofs.ExprFuel Proofs.TotalFuel.
 From BS Require Import Model.Num Gen.Unicode Gen.Regexes.
 
 (* ---- (1) accounting: an accepted text leaves nothing open and every logical line was folded exactly once ---- *)
@@ -149,6 +150,28 @@ Print Assumptions C06_step_no_host.
 Theorem C06_total : forall chunks start w, parse_script chunks start <> RHost w.
 Proof. exact parse_script_total. Qed.
 Print Assumptions C06_total.
+
+(* ... and the model's OWN fuel never runs out (Proofs/ExprFuel.v, Proofs/TotalFuel.v): the regex engine never answers MFuel,
+   re.sub / re.split never run out, and the expression parser's fuel 2*|text|+4 bounds its recursion depth (parse_unary needs
+   2n+1, parse_binary 2n+2, parse_args 2n+3 on n characters; `((((` needs 2n+2) *)
+Theorem C06_expr_parser_fuel_suffices : forall text, parse_expression text <> EFuel.
+Proof. exact parse_expression_no_fuel. Qed.
+Print Assumptions C06_expr_parser_fuel_suffices.
+
+Theorem C06_no_fuel : forall chunks start, parse_script chunks start <> RFuel.
+Proof. exact parse_script_no_fuel. Qed.
+Print Assumptions C06_no_fuel.
+
+(* so: for EVERY input, parse_script returns a script or a BareScriptParserError — nothing else *)
+Theorem C06_total_returns : forall chunks start,
+  (exists s, parse_script chunks start = ROk s) \/ (exists e, parse_script chunks start = RErr e).
+Proof. exact parse_script_returns. Qed.
+Print Assumptions C06_total_returns.
+
+Theorem C06_expr_total_returns : forall text,
+  (exists e, parse_expression text = EOk e) \/ (exists msg c, parse_expression text = EErr msg c).
+Proof. exact parse_expression_returns. Qed.
+Print Assumptions C06_expr_total_returns.
 
 Theorem C06_no_index_error : forall chunks start, parse_script chunks start <> RHost (U "IndexError").
 Proof. exact parse_script_no_index_error. Qed.
